@@ -562,7 +562,7 @@ def check_diagram(pid, tier):
                     ref = None
                     if fi.get("status") == "ok":
                         stats["diagrams"] += 1
-                        ref = dot_wellformed(fi["DOT"]); refcase = case
+                        ref = dot_wellformed(fi["DOT"]); refcase = case; ref_has_value = fi.get("bv") != "none"; refmeta = meta
                         if fi.get("bv") == "none": stats["infeasible"] += 1
                     continue
                 stats["renderings"] += 1
@@ -585,6 +585,11 @@ def check_diagram(pid, tier):
                         if (a, b, x, v, c) not in redge_set:
                             fails.append((pid, "faithful", "edge %d -> %d (x%d = %d, cost %d) is not an arc of the diagram" % (a, b, x, v, c), ctx)); break
                     if term != rterm: fails.append((pid, "faithful", "terminal node drawn inconsistently across configurations", ctx))
+                    # the terminal layer is non-empty iff the diagram has a best value (best_node = max over the terminal layer)
+                    if term != ref_has_value:
+                        fails.append((pid, "terminal", "terminal node %s although the terminal layer is %s (best_value = %s)"
+                                      % ("drawn" if term else "not drawn", "non-empty" if ref_has_value else "empty", "some" if ref_has_value else "none"), ctx,
+                                      ("clean-terminal-drawn-for-pruned-last-layer" if (term and refmeta["flv"] != 2) else None)))
                     if not rterm: stats["empty_last_layer"] += 1
     if pid == "C13":
         import check_simple
